@@ -149,12 +149,15 @@ def apply_step(ctx, d, keys, data: bytes, step, n: int):
     inp, out = d / f"s{n}.suit", d / f"s{n}_o.suit"
     inp.write_bytes(data)
     op = step[0]
-    if op == "sign":
-        alg = "es-256" if step[1] == "kp256" else "eddsa"
-        err = signrun.sign_single(inp, out, keys, step[1], 0x4000AA00 + n, alg, "error")
-    elif op == "sign-remove-old":
-        alg = "es-256" if step[1] == "kp256" else "eddsa"
-        err = signrun.sign_single(inp, out, keys, step[1], 0x10 + n, alg, "remove-old")
+    if op in ("sign", "sign-remove-old"):
+        # the model's two keys stand for the two key families; every supported algorithm takes its turn (a block made by ANY of
+        # them must be shown by parse and re-created)
+        key, alg = ([("kp256", "es-256"), ("kp384", "es-384"), ("kp521", "es-521")][n % 3] if step[1] == "kp256"
+                    else [("ked", "eddsa"), ("ked", "hash-eddsa")][n % 2])
+        if op == "sign":
+            err = signrun.sign_single(inp, out, keys, key, 0x4000AA00 + n, alg, "error")
+        else:
+            err = signrun.sign_single(inp, out, keys, key, 0x10 + n, alg, "remove-old")
     elif op == "extract":
         core.setup_repo_path()
         from suit_generator import cmd_payload_extract
@@ -258,9 +261,8 @@ def run(ctx: core.Check):
     from . import wiregen
     for k in range(120 if ctx.quick else 4000):
         desc = wiregen.rnd_desc(ctx.rng)
-        try:
-            data = toolrun.create_lib(desc)
-        except Exception:
+        data = refusable(ctx, lambda: toolrun.create_lib(desc))   # a refusal is counted (and fails the run when systemic)
+        if data is None:
             continue
         tr.begin({"origin": "grammar", "desc": desc, "env": data})
         n += 1
